@@ -17,3 +17,11 @@ open CaddyModel.C04
 #print axioms references_exact_at_quiescence
 #print axioms delete_never_panics
 #print axioms references_partial
+#print axioms runSched_reachable
+#print axioms mixed_use_full_fails
+#print axioms loadOrStore_returns_nil
+#print axioms references_full_fails
+#print axioms one_undestructed_value_full_fails
+#print axioms range_failing_ctor_deadlock_reachable
+#print axioms stuck_disabled
+#print axioms stuck_forever
